@@ -26,6 +26,7 @@ import McpModel.Resume.Witness
 import McpModel.Resume.Accept08
 import McpModel.Resume.Sound08
 import McpModel.Resume.Purge
+import McpModel.Resume.Window
 import McpModel.Resume.Accept10
 import McpModel.Resume.Sound10
 import McpModel.Resume.WitnessBridge
